@@ -1060,6 +1060,15 @@ def process_case(args):
                 if 'ctx' in c:
                     k = c['type'] + ':' + c['ctx']
                     out['ctx_delivered'][k] = out['ctx_delivered'].get(k, 0) + 1
+            # hypotheses of the composition theorem C01_compose, decided on the recorded contexts by the Lean validator
+            try:
+                import c01_gadgets
+                out['validation'] = c01_gadgets.validate_model(exe, os.path.join(wdir, 'c'), case['cfg']['options'],
+                                                               len(m.vars), quadobj=case['cfg'].get('quadobj', 1))
+                out['validation']['unproved_conversions'] = sorted(
+                    k for k, h in conv.items() if h[1] and k not in c01_gadgets.PROVED_CONVERSIONS)
+            except Exception as ex:
+                out['validation'] = {'status': 'harness-exception', 'what': repr(ex)[:200]}
             if D.unsupported:
                 out['status'] = 'unsupported-type'
                 out['what'] = D.unsupported[:3]
@@ -1287,6 +1296,8 @@ class Agg:
         self.profiles = {}
         self.time = 0.0
         self.naux = {}
+        self.val = {'validated': 0, 'covered': 0, 'ctx_gap': 0, 'not_wf': 0, 'outside': {}, 'unproved_conversions': {},
+                    'other_status': {}, 'gap_examples': [], 'covered_but_failed': 0, 'gap_and_failed': 0}
 
     def add(self, out, ck, corpus=False):
         self.n += 1
@@ -1294,6 +1305,30 @@ class Agg:
         self.status[st] = self.status.get(st, 0) + 1
         self.time += out.get('t', 0)
         self.profiles[out.get('profile')] = self.profiles.get(out.get('profile'), 0) + 1
+        v = out.get('validation')
+        if v and not corpus:
+            V = self.val
+            if v.get('status') != 'ok':
+                V['other_status'][v.get('status')] = V['other_status'].get(v.get('status'), 0) + 1
+            else:
+                V['validated'] += 1
+                for rsn in v.get('outside') or []:
+                    V['outside'][rsn] = V['outside'].get(rsn, 0) + 1
+                for k in v.get('unproved_conversions') or []:
+                    V['unproved_conversions'][k] = V['unproved_conversions'].get(k, 0) + 1
+                if not v.get('wf'):
+                    V['not_wf'] += 1
+                if v.get('gaps'):
+                    V['ctx_gap'] += 1
+                    if len(V['gap_examples']) < 6:
+                        V['gap_examples'].append({'case': out.get('id'), 'gaps': v['gaps'][:6], 'oracle_status': st})
+                    if st == 'fail':
+                        V['gap_and_failed'] += 1
+                covered = v.get('wf') and not v.get('gaps') and not v.get('outside') and not v.get('unproved_conversions')
+                if covered:
+                    V['covered'] += 1
+                    if st == 'fail':
+                        V['covered_but_failed'] += 1
         s = out.get('stats')
         if s:
             for k, v in s['ops'].items():
@@ -1398,6 +1433,15 @@ class Agg:
         ck.log('  delivered native functional constraints by ctx: %s' % dict(sorted(self.ctx_deliv.items())))
         ck.log('  refusal kinds: %s' % dict(sorted(self.refusals.items())))
         ck.log('  failure signatures: %s' % dict(sorted(self.sigs.items())))
+        V = self.val
+        ck.log('  C01_compose hypotheses on recorded (pre-conversion) contexts, decided by the Lean validator: %d models validated; '
+               '%d fully inside the theorem (WF, CtxCovers, linear roots, every conversion has a proved gadget); %d with a context gap '
+               '(%d of them also fail the oracle); %d not in creation order; outside: %s; unproved conversions used: %s; '
+               'inside the theorem but failing the oracle (late contexts / map reuse): %d; validator not applicable: %s'
+               % (V['validated'], V['covered'], V['ctx_gap'], V['gap_and_failed'], V['not_wf'], dict(sorted(V['outside'].items())),
+                  dict(sorted(V['unproved_conversions'].items())), V['covered_but_failed'], V['other_status']))
+        for ex in V['gap_examples'][:3]:
+            ck.log('    context gap example: %s' % ex)
         # stage A (gadgets) may already have filled these four; add the end-to-end counters
         ck.cov['evaluations'] = int(ck.cov.get('evaluations') or 0) + self.points
         ck.cov['distinct_nontrivial'] = int(ck.cov.get('distinct_nontrivial') or 0) + self.models_mixed
@@ -1414,6 +1458,7 @@ class Agg:
             'conversions_per_type_delivered_converted_unused': self.conv, 'delivered_types': self.deliv,
             'delivered_functional_ctx': self.ctx_deliv, 'refusal_kinds': self.refusals, 'failure_signatures': self.sigs,
             'profiles': self.profiles, 'aux_count_hist': self.naux, 'corpus_reproduced': self.corpus_repro,
+            'compose_validation': self.val,
         }
         ck.assumptions += [
             'delivered functional constraints accepted natively mean res == f(args) (context-independent), 0/1 truth = value >= 1/2',
